@@ -88,7 +88,7 @@ def run(ctx):
         ok = [r[1] for r in roots] == [("param", 1), ("param", 2), ("param", 3)] and not any(r[0] for r in roots)
         ctx.check(ok, "C14-R1", "args|" + fn, "%s forwards (code, subject position, comment regex) unchanged" % fn, c.where())
         ctx.check(len(return_values(b)) == 0 and c.dst["l"] == 0 and not c.dst["p"], "C14-R1", "result|" + fn, "%s returns the scan's answer as is" % fn, b.where())
-    lits = rx.regex_literals(facts, r"rust_log_ref_finder::find::RUST_COMMENT_PATTERN")
+    lits = rx.regex_literals(facts, r"rust_log_ref_finder::find::")
     if ctx.check(len(lits) == 1 and lits[0][1] is not None, "C14-R1", "anchor|comment-regex", "comment regex literal found (%s)" % [l for _, l in lits], ""):
         e = rx.equiv("(?s-u:.)*(?:%s)" % lits[0][1], "(?s-u:.)*(?:%s)" % COMMENT_SPEC)
         e2 = rx.equiv(lits[0][1], COMMENT_SPEC)
@@ -302,7 +302,7 @@ def run(ctx):
                     want = "macro_name" if what == "ignore" else "macro_args"
                     ctx.check(variants == {want}, "C14-R4", "arg-pair|" + what,
                               "that pair is the statement's %s (pair checked against Rule::%s)" % (span_of, ",".join(sorted(variants)) or "?"), C.where())
-                ctx.check(any("RUST_COMMENT_PATTERN" in x.name for x in r_rx[0]), "C14-R4", "arg-regex|" + what, "%s check uses the Rust comment regex" % what, C.where())
+                ctx.check(any(re.search(r"find::|get_or_init$", x.name) for x in r_rx[0]), "C14-R4", "arg-regex|" + what, "%s check uses the finder's comment regex (a static of `find`)" % what, C.where())
             # which pair: ignore -> a Pair whose as_rule was compared with Rule::macro_name; no-kvp -> the macro_args span
             # no-kvp consulted only with structured
             N_ok = False
